@@ -17,9 +17,10 @@ def build(repo):
         u.harness(n, 'value::OrderedFloat64::' + ob)
     for i, a in enumerate(OV):
         for j, b in enumerate(OV):
-            n = 'ov_pair_%s_%s' % (a, b)
-            gen_ov.append('pair!(%s, %d, %d);' % (n, i, j))
-            u.harness(n, 'value::OrderableValue::cmp_eq::pair(%s,%s)' % (a, b))
+            for part, pn in ((0, 'rev'), (1, 'eq'), (2, 'sym')):
+                n = 'ov_pair_%s_%s_%s' % (pn, a, b)
+                gen_ov.append('pair!(%s, %d, %d, %d);' % (n, part, i, j))
+                u.harness(n, 'value::OrderableValue::cmp_eq::%s(%s,%s)' % ({0: 'antisymmetric', 1: 'consistent_with_eq', 2: 'eq_symmetric+partial_cmp'}[part], a, b), timeout=1200)
             n = 'ov_hash_%s_%s' % (a, b)
             gen_ov.append('pairh!(%s, %d, %d);' % (n, i, j))
             u.harness(n, 'value::OrderableValue::hash::agrees_with_eq(%s,%s)' % (a, b))
